@@ -134,11 +134,6 @@ def evaluate__parenthesized_expression(self: XPathToken, context: ta.ContextType
 
             return func(*arguments, context=context)
 
-        elif self[0].symbol == '(':
-            if not isinstance(value, list):
-                return value
-            elif any(not isinstance(x, XPathFunction) for x in value):
-                return value
 
         if isinstance(value, XPathToken) and value.symbol == '?':
             return value
